@@ -260,6 +260,9 @@ func (s *Sim) checkGauges(final bool) {
 func (s *Sim) oracleQuiescence() {
 	s.stat("quiescence_reached", 1)
 	for _, c := range s.Clients {
+		c.finalizeDangling()
+	}
+	for _, c := range s.Clients {
 		if c.State != "open" || c.eofSeen() {
 			continue
 		}
@@ -392,7 +395,10 @@ func (s *Sim) resultRIDRevoked(c *Client, r *CReq) bool {
 	return false
 }
 
-// getPending: a get request for rid's resource name has not been delivered yet.
+// getPending: rid's resource is being fetched: a get request for its name is in
+// flight, or the gateway has just subscribed to its events and no get answer
+// has been delivered under that subscription yet (the get may still be waiting
+// in a throttle or for a cache worker).
 func (s *Sim) getPending(rid string) bool {
 	name, _ := splitRID(rid)
 	s.mu.Lock()
@@ -402,7 +408,26 @@ func (s *Sim) getPending(rid string) bool {
 			return true
 		}
 	}
-	return false
+	var lastSub uint64
+	subscribed := false
+	for _, ev := range s.tr.Log {
+		if ev.NS == "event."+name {
+			if ev.Kind == "sub" {
+				lastSub, subscribed = ev.Seq, true
+			} else if ev.Kind == "unsub" {
+				subscribed = false
+			}
+		}
+	}
+	if !subscribed {
+		return false
+	}
+	for _, ev := range s.tr.Log {
+		if ev.Kind == "dlv" && ev.Req != nil && ev.Req.Type == "get" && ev.Req.Name == name && ev.Seq > lastSub {
+			return false
+		}
+	}
+	return true
 }
 
 // accessRefused: an access request for (c, rid) sent after client request r
@@ -701,6 +726,9 @@ func (s *Sim) checkIntervalRelaxed(c *Client, iv *Interval, v *Variant, mustReac
 // ---- end of run -------------------------------------------------------------------
 
 func (s *Sim) oracleEndOfRun() {
+	for _, c := range s.Clients {
+		c.finalizeDangling()
+	}
 	s.stat("oracle.C09.e", 1)
 	s.mu.Lock()
 	var left []string
